@@ -323,6 +323,13 @@ func linRun(args []string) int {
 			samples = append(samples, desc)
 		}
 	}
+	// lin2.go: histories whose calls arrive while the loop is in the middle of firing the only job (popped, trigger held, not pushed back)
+	l2viol, l2evals, l2reached, l2dist, l2samples := lin2Histories(*seed, max(24, *n/4))
+	viol = append(append([]string{}, l2viol...), viol...)
+	evals += l2evals
+	nontrivial += l2reached
+	dist["in_flight_window"] = l2dist
+	samples = append(samples, l2samples...)
 	writeJSON(*out+"/stats.json", map[string]any{"seed": *seed, "evaluations": evals, "distinct_nontrivial": nontrivial, "histories": *n,
 		"distribution": dist, "violations": viol, "samples": samples})
 	fmt.Printf("lin: %d concurrent histories (%d with overlapping calls), %d calls, %d not linearizable\n", *n, nontrivial, evals, len(viol))
